@@ -22,6 +22,7 @@ import (
 func init() {
 	register(&Prop{ID: "C11", Run: runC11, Procs: true, Replay: map[string]func(*mc.Ctx, json.RawMessage){
 		"subset": replayer(c11Eval),
+		"graph":  replayer(c11EvalGraph),
 	}})
 }
 
@@ -356,4 +357,5 @@ func runC11(c *mc.Ctx) {
 	})
 	c.Sample("subset", cases[5])
 	c.Sample("subset", cases[len(cases)-1])
+	runC11Graphs(c)
 }
